@@ -9,7 +9,7 @@ open Echse.Rrule Echse.Instant Echse.Spec.RrOk Echse.Spec.Cal Echse.Spec.RuleExt
 open Echse.Lemmas.RrOkBase
 
 /-- the day's instances: exactly the times of the enumeration on that day -/
-theorem dayL_char (r : Rule) (p : Inst) (nti : Nat) (hr : WfRule r) (hp : WfInst p) (hs : SeedOk r p)
+theorem dayL_char (r : Rule) (p : Inst) (nti : Nat) (hr : WfRule r) (hp : WfInst p)
     (hy : 1901 ≤ p.y) (hf : r.freq = 4) (j y m d : Nat) (hc : Carry p.y p.m (rnd (dctx r p nti) j) y m d)
     (hy2 : y ≤ 2099) (hsk : dlySkipDay (dctx r p nti) m d (rndW (dctx r p nti) j) (getNdom y m) = false)
     (x : Inst) (hx : dayOf x = days y m d) (u : Inst) :
@@ -22,11 +22,11 @@ theorem dayL_char (r : Rule) (p : Inst) (nti : Nat) (hr : WfRule r) (hp : WfInst
   · intro h
     obtain ⟨t, ht, e⟩ := List.mem_map.1 h
     rw [← e]
-    exact ⟨dly_inst r p nti hr hp hs hy j y m d hc hy2 hsk t ht, rfl⟩
+    exact ⟨dly_inst r p nti hr hp hy j y m d hc hy2 hsk t ht, rfl⟩
   · rintro ⟨hu, hd⟩
     obtain ⟨s1, s2, s3, s4, s5, s6⟩ := hu.1
     obtain ⟨e1, e2, e3⟩ := days_inj u.y u.m u.d y m d s1 s2 s3 s4 hvs.1 hvs.2.1 hvs.2.2.1 hvs.2.2.2 hd
-    obtain ⟨a, b, c⟩ := enum_of_exp hp hs s6 hu.2.2.2
+    obtain ⟨a, b, c⟩ := enum_of_exp hp s6 hu.2.2.2
     obtain ⟨iH, aH⟩ := mem_getElem? a
     obtain ⟨iM, aM⟩ := mem_getElem? b
     obtain ⟨iS, aS⟩ := mem_getElem? c
@@ -38,7 +38,7 @@ theorem dayL_char (r : Rule) (p : Inst) (nti : Nat) (hr : WfRule r) (hp : WfInst
     rfl
 
 /-- the day loop's BYSETPOS test is `SetposOk` -/
-theorem dlySkip_iff (r : Rule) (p : Inst) (nti : Nat) (hr : WfRule r) (hp : WfInst p) (hs : SeedOk r p)
+theorem dlySkip_iff (r : Rule) (p : Inst) (nti : Nat) (hr : WfRule r) (hp : WfInst p)
     (hy : 1901 ≤ p.y) (hf : r.freq = 4) (hpos : r.pos ≠ []) (j y m d : Nat)
     (hc : Carry p.y p.m (rnd (dctx r p nti) j) y m d) (hy2 : y ≤ 2099)
     (hsk : dlySkipDay (dctx r p nti) m d (rndW (dctx r p nti) j) (getNdom y m) = false)
@@ -51,8 +51,8 @@ theorem dlySkip_iff (r : Rule) (p : Inst) (nti : Nat) (hr : WfRule r) (hp : WfIn
       (makeEnum p r).S.length + iS]? = some (mkz y m d p.ms ((iH, iM, iS), h, mi, s)) := by
     rw [dly_idx, List.getElem?_map, hget]; rfl
   have key := setpos_iff r p (mkz y m d p.ms ((iH, iM, iS), h, mi, s)) hpos _
-    (dayL_sorted r p hr hp hs y m d) _ hidx
-    (dayL_char r p nti hr hp hs hy hf j y m d hc hy2 hsk _ rfl)
+    (dayL_sorted r p hr hp y m d) _ hidx
+    (dayL_char r p nti hr hp hy hf j y m d hc hy2 hsk _ rfl)
   rw [key, List.length_map, timesIx_length]
   unfold dlySkip
   show ((!r.pos.isEmpty) && !posMatchP r.pos ((iH * (makeEnum p r).M.length + iM) * (makeEnum p r).S.length + iS + 1)
